@@ -37,11 +37,15 @@ VATTRS = {'units': 'ppb', 'long_name': 'x y', 'gain': 1.5, 'vrange': [0.5, 5.0],
           # valid maximum above every value, stored as float32 whatever the variable's type
           'least_significant_digit': ('i4', 0), 'valid_max': ('f4', 250.5),
           # names that are python attributes of netCDF4.Variable
-          'scale': 0.5, 'path': 'x/y', 'name': 'nm', 'parent': 'none'}
+          'scale': 0.5, 'path': 'x/y', 'name': 'nm', 'parent': 'none',
+          # a double underscore inside a name (NCO__version style), text beyond ASCII
+          'cell__methods': 'time: mean', 'comment': u'\u00b5g m-3 (Universit\u00e4t)'}
 GATTRS = {'title': 'hello world', 'version': ('f4', 1.25), 'levels': ('i4', [1, 2, 3]), 'n': 5, '_private': 'x',
           'big': ('i8', 2 ** 40), 'shorts': ('i2', [1, 2]), 'half': ('f4', 0.5),
           # names that are python attributes of netCDF4.Dataset
-          'path': 'a/b', 'name': 'fname', 'mask': 'land', 'scale': 2.5, 'parent': 'p'}
+          'path': 'a/b', 'name': 'fname', 'mask': 'land', 'scale': 2.5, 'parent': 'p',
+          # a double underscore inside a name, text beyond ASCII
+          'grid__mapping': 'lcc', 'institution': u'Universit\u00e4t \u00b0C'}
 
 
 def gen(rng, tier):
